@@ -109,6 +109,10 @@ func handleZADD(params internal.HandlerFuncParams) ([]byte, error) {
 		options := params.Command[2:membersStartIndex]
 		for _, option := range options {
 			if slices.Contains([]string{"xx", "nx"}, strings.ToLower(option)) {
+				// NX and XX exclude each other
+				if up, ok := updatePolicy.(string); ok && !strings.EqualFold(up, option) {
+					return nil, errors.New("XX and NX flags cannot be provided together")
+				}
 				updatePolicy = option
 				// If option is "NX" and comparison is not nil, return an error
 				if strings.EqualFold(option, "NX") && comparison != nil {
@@ -117,6 +121,10 @@ func handleZADD(params internal.HandlerFuncParams) ([]byte, error) {
 				continue
 			}
 			if slices.Contains([]string{"gt", "lt"}, strings.ToLower(option)) {
+				// GT and LT exclude each other
+				if cp, ok := comparison.(string); ok && !strings.EqualFold(cp, option) {
+					return nil, errors.New("GT and LT flags cannot be provided together")
+				}
 				comparison = option
 				// If updatePolicy is "NX", return an error
 				up, _ := updatePolicy.(string)
